@@ -33,6 +33,10 @@ pub fn class_scalar(class: &str, rng: &mut StdRng) -> Scalar {
         "two128" => Scalar::from_raw([0, 0, 1, 0]),
         "neg_small" => -Scalar::from(7u64),
         "neg_two63" => -Scalar::from(1u64 << 63),
+        // limbs of all ones below a higher limb (carry chains of multi-limb recodings): 2^128 - 1, 2^129 - 1, 2^192 - 1
+        "ones128" => Scalar::from_raw([u64::MAX, u64::MAX, 0, 0]),
+        "ones129" => Scalar::from_raw([u64::MAX, u64::MAX, 1, 0]),
+        "ones192" => Scalar::from_raw([u64::MAX, u64::MAX, u64::MAX, 0]),
         // a short value with only the TOP byte of the encoding set as well: 5 + 5 * 2^248
         "top_byte" => { let mut b = [0u8; 32]; b[0] = 5; b[31] = 5; Scalar::from_bytes(&b).unwrap() }
         _ => Scalar::random(&mut *rng),
@@ -90,7 +94,8 @@ fn message_classes(n: usize) -> Vec<Vec<&'static str>> {
         v.push(vec![w; n]);
     }
     v.push(vec!["top_byte"; n]);
-    let words = ["two63p1", "two64", "two128", "neg_two63", "top_byte", "two63", "two64m1", "neg_small"];
+    v.push(vec!["ones129"; n]);
+    let words = ["two63p1", "two64", "two128", "neg_two63", "top_byte", "ones128", "ones129", "ones192", "two63", "two64m1", "neg_small"];
     let mut a = vec!["random"; n];
     for i in 0..n { if i % 2 == 0 { a[i] = words[(i / 2) % words.len()]; } }
     v.push(a);
@@ -430,6 +435,25 @@ fn psig_n<const N: usize>(rng: &mut StdRng, thorough: bool, out: &mut Vec<Value>
     }
 }
 
+// ---- capabilities of the proof-gated types, decided at compile time (autoref specialisation): a blind-signable value
+// must come from a verifying proof, so these types are not decodable from bytes; the one-shot ones are not Clone
+struct Probe<T>(std::marker::PhantomData<T>);
+trait ProbeNo { fn is_de(&self) -> bool { false } fn is_clone(&self) -> bool { false } }
+impl<T> ProbeNo for &Probe<T> {}
+trait ProbeDe { fn is_de(&self) -> bool; }
+impl<T: serde::de::DeserializeOwned> ProbeDe for Probe<T> { fn is_de(&self) -> bool { true } }
+trait ProbeClone { fn is_clone(&self) -> bool; }
+impl<T: Clone> ProbeClone for Probe<T> { fn is_clone(&self) -> bool { true } }
+macro_rules! probe_de { ($t:ty) => { (&Probe::<$t>(std::marker::PhantomData)).is_de() }; }
+macro_rules! probe_clone { ($t:ty) => { (&Probe::<$t>(std::marker::PhantomData)).is_clone() }; }
+
+fn capabilities(out: &mut Vec<Value>) {
+    use zkchannels_crypto::pointcheval_sanders::VerifiedBlindedMessage;
+    out.push(json!({"ev": "capability", "type": "VerifiedBlindedMessage", "deserialize": probe_de!(VerifiedBlindedMessage), "clone_forbidden": false, "clone": probe_clone!(VerifiedBlindedMessage)}));
+    out.push(json!({"ev": "capability", "type": "VerifiedBlindedState", "deserialize": probe_de!(zkabacus_crypto::VerifiedBlindedState), "clone_forbidden": true, "clone": probe_clone!(zkabacus_crypto::VerifiedBlindedState)}));
+    out.push(json!({"ev": "capability", "type": "merchant::Unrevoked", "deserialize": probe_de!(zkabacus_crypto::merchant::Unrevoked<'static>), "clone_forbidden": true, "clone": probe_clone!(zkabacus_crypto::merchant::Unrevoked<'static>)}));
+}
+
 pub fn psig(seed: u64, thorough: bool) -> Vec<Value> {
     // one thread per tuple length
     macro_rules! spawn_n {
@@ -444,6 +468,7 @@ pub fn psig(seed: u64, thorough: bool) -> Vec<Value> {
     }
     let hs = vec![spawn_n!(1), spawn_n!(2), spawn_n!(3), spawn_n!(5), spawn_n!(8), spawn_n!(13)];
     let mut out = vec![];
+    capabilities(&mut out);
     for h in hs {
         out.extend(h.join().expect("psig worker"));
     }
@@ -491,7 +516,7 @@ fn pedersen_n<G: Grp, const N: usize>(rng: &mut StdRng, thorough: bool, out: &mu
             let mut a = vec!["random"; N]; a[0] = "zero"; cases.push((a.clone(), "random")); cases.push((a, "zero"));
             let mut b = vec!["zero"; N]; b[N - 1] = "one"; cases.push((b.clone(), "minus_one")); cases.push((b, "one"));
         }
-        for w in ["two63", "two63p1", "two64m1", "two64", "two128", "neg_small", "neg_two63"] {
+        for w in ["two63", "two63p1", "two64m1", "two64", "two128", "neg_small", "neg_two63", "ones128", "ones129", "ones192", "top_byte"] {
             cases.push((vec![w; N], "random"));
             let mut a = vec!["random"; N]; a[N - 1] = w; cases.push((a, w));
         }
@@ -586,7 +611,8 @@ pub fn pedersen(seed: u64, thorough: bool) -> Vec<Value> {
             })
         };
     }
-    let hs = vec![spawn_n!(1), spawn_n!(2), spawn_n!(3), spawn_n!(5), spawn_n!(8), spawn_n!(13)];
+    // (17 is outside the tuple lengths the library uses; it crosses the 16-term block boundary of blocked sums)
+    let hs = vec![spawn_n!(1), spawn_n!(2), spawn_n!(3), spawn_n!(5), spawn_n!(8), spawn_n!(13), spawn_n!(17)];
     let mut out = vec![];
     for h in hs { out.extend(h.join().expect("pedersen worker")); }
     out
@@ -1185,7 +1211,18 @@ pub fn schnorr(seed: u64, thorough: bool) -> Vec<Value> {
         patterns(&mut rng, &mut out, &rp, thorough);
         out
     });
-    let hs = vec![spawn_n!(1), spawn_n!(2), spawn_n!(3), spawn_n!(5), spawn_n!(8), spawn_n!(13)];
+    let mut hs = vec![spawn_n!(1), spawn_n!(2), spawn_n!(3), spawn_n!(5), spawn_n!(8), spawn_n!(13)];
+    if thorough {
+        hs.push(spawn_n!(17));
+    } else {
+        // quick tier: one honest proof of each kind and its verification history at a tuple length beyond 16
+        hs.push(std::thread::spawn(move || {
+            let mut rng = seeded(seed, 630 + 17);
+            let mut out = vec![];
+            verification_histories::<17>(&mut rng, &mut out);
+            out
+        }));
+    }
     let mut out = vec![];
     for h in hs { out.extend(h.join().expect("schnorr worker")); }
     out.extend(hp.join().expect("pattern worker"));
